@@ -432,9 +432,32 @@ let op_rules (args : str list) : str list =
   [ show (rule_const_init fs); show (rule_const_not_fb fs); show (rule_global_const fs); show (rule_task fs);
     show (rule_enum_value fs); show (rule_fb_call fs); show (rule_stdlib fs) ]
 
+(* the late-bound type initializer transformation: one type fact per argument (see harness op `latebound`) ->
+   ok <kinds separated by blanks> | err <code@pos ..> *)
+let ikind_of = function
+  | "none" -> IkNone | "simple" -> IkSimple | "string" -> IkString | "enumvalues" -> IkEnumValues | "enumtype" -> IkEnumType
+  | "fb" -> IkFB | "subrange" -> IkSubrange | "struct" -> IkStruct | "array" -> IkArray | "late" -> IkLate | _ -> failwith "ikind"
+let ikind_name = function
+  | IkNone -> "none" | IkSimple -> "simple" | IkString -> "string" | IkEnumValues -> "enumvalues" | IkEnumType -> "enumtype"
+  | IkFB -> "fb" | IkSubrange -> "subrange" | IkStruct -> "struct" | IkArray -> "array" | IkLate -> "late"
+let tfact_of (w : str) : tfact =
+  match S.split_on_char ',' w with
+  | ["TD"; n; k; p] ->
+      TDecl (text_of_hex n,
+             (match k with "enum" -> TkEnum | "subrange" -> TkSubrange | "simple" -> TkSimple | "array" -> TkArray | "struct" -> TkStruct
+                         | "structinit" -> TkStructInit | "string" -> TkString | "latebound" -> TkLateBound | "fb" -> TkFB | _ -> failwith "tkind"),
+             n_of_int (int_of_string p))
+  | ["IK"; k; t; p] -> TInit (ikind_of k, (if t = "-" then [] else text_of_hex t), n_of_int (int_of_string p))
+  | _ -> failwith ("bad type fact " ^ w)
+let op_latebound (args : str list) : str list =
+  let fs = List.map tfact_of (List.filter (fun w -> w <> "") args) in
+  match xform_type_init fs with
+  | Inl ks -> ["ok"; S.concat " " (List.map ikind_name ks)]
+  | Inr ds -> ["err"; S.concat " " (List.map (fun (c, p) -> dec_of_n c ^ "@" ^ dec_of_n p) ds)]
+
 let ops : (str * (str list -> str list)) list ref =
   ref [ ("lex", op_lex); ("semtok", op_semtok); ("decode", op_decode); ("lit", op_lit); ("cycle", op_cycle);
-        ("lsp", op_lsp); ("cli", op_cli); ("rule", op_rule); ("expr", op_expr); ("scope", op_scope); ("stmts", op_stmts); ("strender", op_strender); ("rules", op_rules) ]
+        ("lsp", op_lsp); ("cli", op_cli); ("rule", op_rule); ("expr", op_expr); ("scope", op_scope); ("stmts", op_stmts); ("strender", op_strender); ("rules", op_rules); ("latebound", op_latebound) ]
 
 
 let () =
